@@ -190,9 +190,16 @@ def main(tier, seed, replay):
     for i in range(ncurves):
         sph = rng.random() < 0.35
         n = rng.randint(2, 6)
+        wrap_q = False
         if sph:
-            pts = wg.gen_trench(rng, None, rng.uniform(-2.5, 2.5), rng.uniform(-0.9, 0.9), rng.uniform(0.05, 0.3), n, 58.0)
+            # longitude conventions: inside (-pi,pi); across the date line (raw coordinates beyond +-pi on one side); wholly in the
+            # 0..2pi resp. -2pi..0 convention. The World hands query longitudes over in (-pi,pi], so queries are wrapped there.
+            conv = rng.choice(['plain', 'plain', 'dateline+', 'dateline-', '0..2pi', '-2pi..0'])
+            lon0 = {'plain': rng.uniform(-2.5, 2.5), 'dateline+': rng.uniform(PI - 0.1, PI + 0.1), 'dateline-': rng.uniform(-PI - 0.1, -PI + 0.1),
+                    '0..2pi': rng.uniform(PI + 0.3, 2 * PI - 0.3), '-2pi..0': rng.uniform(-2 * PI + 0.3, -PI - 0.3)}[conv]
+            pts = wg.gen_trench(rng, None, lon0, rng.uniform(-0.9, 0.9), rng.uniform(0.05, 0.3), n, 58.0)
             reach = 0.04
+            wrap_q = conv != 'plain' and rng.random() < 0.8
         else:
             pts = wg.gen_trench(rng, None, rng.uniform(-1e6, 1e6), rng.uniform(-1e6, 1e6), rng.uniform(3e5, 2e6), n, 58.0)
             reach = 3e5
@@ -214,6 +221,8 @@ def main(tier, seed, replay):
             a = rng.uniform(0, 2 * PI)
             r = rng.uniform(0, reach) if rng.random() < 0.8 else rng.uniform(0, reach * 0.01)
             q = (bx + r * math.cos(a), by + r * math.sin(a))
+            if wrap_q:
+                q = (math.atan2(math.sin(q[0]), math.cos(q[0])), q[1])
             i1 = c.add('bez_close', 1, sysc, core.hx(q[0]), core.hx(q[1]))
             i2 = c.add('bez_brute2', 1, sysc, core.hx(q[0]), core.hx(q[1]), 4000, n - 1)
             qs.append((q, i1, i2))
@@ -375,7 +384,13 @@ def check_bez(V, c, pts, ends, qs, sph):
         if n == 2:
             # a two point trench is the cubic p0 + t^3 (p1 - p0): its derivative vanishes at the first coordinate, where the
             # solver starts when the chord projection of the point (in the x/y resp. lon/lat plane) is <= 0
-            est0 = ((q[0] - pts[0][0]) * (pts[1][0] - pts[0][0]) + (q[1] - pts[0][1]) * (pts[1][1] - pts[0][1])) / (chords[0] * chords[0])
+            qx = q[0]
+            if sph:
+                while qx - pts[0][0] > PI:
+                    qx -= 2 * PI
+                while qx - pts[0][0] < -PI:
+                    qx += 2 * PI
+            est0 = ((qx - pts[0][0]) * (pts[1][0] - pts[0][0]) + (q[1] - pts[0][1]) * (pts[1][1] - pts[0][1])) / (chords[0] * chords[0])
             if est0 <= 1e-3:
                 field = 'two-point-trench:chord-projection<=0'
         if not ok(r1):
